@@ -6,6 +6,9 @@ mod display_context;
 mod error;
 mod io;
 mod types;
+#[cfg(koto_verif)]
+#[allow(missing_docs)]
+pub mod verif;
 mod vm;
 
 pub mod core_lib;
